@@ -939,6 +939,7 @@ enum VOp {
     Insert { id: u8, v: (i8, i8), level: u8 },
     DeleteNode(u8),
     Reopen,
+    Compact,
 }
 
 fn dist(a: (i8, i8), b: (i8, i8)) -> f32 {
@@ -1005,6 +1006,11 @@ fn hnsw_run(seq: &[VOp], queries: &[(i8, i8)], ks: &[usize]) -> Option<(String, 
                             Err(e) => return Some(("reopen_failed".into(), e.to_string())),
                         };
                     }
+                    VOp::Compact => {
+                        if let Err(e) = db.compact() {
+                            return Some(("compact_failed".into(), format!("step {step}: {e}")));
+                        }
+                    }
                 }
                 let live: BTreeMap<u32, (i8, i8)> = vectors.iter().filter(|(i, _)| !deleted.contains(i)).map(|(i, v)| (*i, *v)).collect();
                 let snap = db.snapshot();
@@ -1063,7 +1069,7 @@ pub fn c31(tier: Tier) -> i32 {
     // SAFETY: set before any thread is spawned by this check.
     unsafe { std::env::set_var("NERVUSDB_HNSW_M", "2") };
     let rep = Report::new("C31", tier);
-    rep.rule("NERVUSDB_HNSW_M=2; all sequences up to the stated length over {set_vector(node in 0..2, v in {(0,0),(1,0),(3,0),(1,1)}) with the HNSW level of the insert chosen exhaustively from {0,1,2}, delete node, reopen}; after EVERY step all queries of a 3x3 grid x k in {1,2,5}: at most k hits, distinct, every hit a live node with a stored vector, exact Euclidean distance to the node's LATEST vector, non-decreasing, and (at most 5 vectors stored) exactly the k nearest; non-trivial = sequences with a re-insert, a delete or a reopen");
+    rep.rule("NERVUSDB_HNSW_M=2; all sequences up to the stated length over {set_vector(node in 0..2, v in {(0,0),(1,0),(3,0),(1,1)}) with the HNSW level of the insert chosen exhaustively from {0,1,2}, delete node, reopen, compact}; plus a full-index family: exactly 2M+1 = 5 vectors, every assignment of the five nodes to six positions; after EVERY step all queries of a 3x3 grid x k in {1,2,5}: at most k hits, distinct, every hit a live node with a stored vector, exact Euclidean distance to the node's LATEST vector, non-decreasing, and (at most 5 vectors stored) exactly the k nearest; non-trivial = sequences with a re-insert, a delete or a reopen");
     let ids: Vec<u8> = vec![0, 1, 2];
     let vecs = [(0i8, 0i8), (1, 0), (3, 0), (1, 1)];
     let mut ops: Vec<VOp> = Vec::new();
@@ -1077,6 +1083,7 @@ pub fn c31(tier: Tier) -> i32 {
     ops.push(VOp::DeleteNode(0));
     ops.push(VOp::DeleteNode(1));
     ops.push(VOp::Reopen);
+    ops.push(VOp::Compact);
     let queries: Vec<(i8, i8)> = vec![(0, 0), (1, 0), (3, 0), (1, 1), (2, 2), (0, 3)];
     let ks = [1usize, 2, 5];
     let depth = tier.pick(3usize, 4);
@@ -1094,6 +1101,7 @@ pub fn c31(tier: Tier) -> i32 {
                         VOp::Insert { id, .. } => !deleted.contains(id),
                         VOp::DeleteNode(i) => !deleted.contains(i),
                         VOp::Reopen => !s.is_empty() && !matches!(s.last(), Some(VOp::Reopen)),
+                        VOp::Compact => !s.is_empty() && !matches!(s.last(), Some(VOp::Compact)),
                     };
                     if ok {
                         let mut n = s.clone();
@@ -1144,6 +1152,7 @@ pub fn c31(tier: Tier) -> i32 {
                             VOp::Insert { id, level, .. } => format!("Insert(n{id},L{level})"),
                             VOp::DeleteNode(i) => format!("DeleteNode(n{i})"),
                             VOp::Reopen => "Reopen".into(),
+                            VOp::Compact => "Compact".into(),
                         })
                         .collect();
                     rep.violation(Violation { class, kinds, replay: json!({"engine":"hnsw","sequence": s.iter().map(|o| format!("{o:?}")).collect::<Vec<_>>()}), detail });
@@ -1157,6 +1166,37 @@ pub fn c31(tier: Tier) -> i32 {
         frontier = next;
     }
     rep.set("completed_depth", json!(completed));
+    // full-index family: exactly 2M+1 = 5 vectors (one per node, inserted in node order at level 0), EVERY assignment of
+    // the five vectors to six positions (hubs, clusters, duplicates); all five must be found
+    {
+        let pos = [(0i8, 0i8), (1, 0), (0, 1), (10, 0), (10, 1), (5, 5)];
+        let total = (pos.len() as u64).pow(5);
+        let res: Vec<(Vec<VOp>, Option<(String, String)>)> = (0..total)
+            .into_par_iter()
+            .map(|mut idx| {
+                let mut s = Vec::new();
+                for id in 0..5u8 {
+                    s.push(VOp::Insert { id, v: pos[(idx % pos.len() as u64) as usize], level: 0 });
+                    idx /= pos.len() as u64;
+                }
+                let r = hnsw_run(&s, &queries, &ks);
+                (s, r)
+            })
+            .collect();
+        let mut bad = 0;
+        for (s, r) in res {
+            rep.add_states(1);
+            rep.add_traces(1);
+            rep.add_transitions(5);
+            rep.add_nontrivial(1);
+            if let Some((class, detail)) = r {
+                bad += 1;
+                rep.outcome(&class);
+                rep.violation(Violation { class: format!("full_index:{class}"), kinds: vec!["five_vectors".into()], replay: json!({"engine":"hnsw","sequence": s.iter().map(|o| format!("{o:?}")).collect::<Vec<_>>()}), detail });
+            }
+        }
+        rep.set("full_index_family", json!({"assignments": total, "violating": bad}));
+    }
     rep.assume("the HNSW level draw is the only randomness of the index and is replaced by an enumerated choice through the verif-hooks seam");
     rep.finish()
 }
